@@ -115,11 +115,13 @@ public:
   explicit CaptureExporter(int idx) : idx_(idx) {}
   std::unique_ptr<sdklogs::Recordable> MakeRecordable() noexcept override
   {
+    hz::HarnessCode hc_;
     return std::unique_ptr<sdklogs::Recordable>(new sdklogs::ReadWriteLogRecord);
   }
   sdkcommon::ExportResult Export(
       const nostd::span<std::unique_ptr<sdklogs::Recordable>> &records) noexcept override
   {
+    hz::HarnessCode hc_;
     for (auto &r : records)
     {
       auto *lr = static_cast<sdklogs::ReadWriteLogRecord *>(r.get());
@@ -148,8 +150,8 @@ public:
     vsim::yield();
     return sdkcommon::ExportResult::kSuccess;
   }
-  bool ForceFlush(std::chrono::microseconds) noexcept override { return true; }
-  bool Shutdown(std::chrono::microseconds) noexcept override { return true; }
+  bool ForceFlush(std::chrono::microseconds) noexcept override { hz::HarnessCode hc_; return true; }
+  bool Shutdown(std::chrono::microseconds) noexcept override { hz::HarnessCode hc_; return true; }
 
 private:
   int idx_;
@@ -491,7 +493,10 @@ void run_program(int idx, const TaskProg &t)
       case OP_GETLOGGER: {
         std::string lib = fmt("dyn-lib-t%d-%lld", idx, (long long)op.a);
         vsim::yield();
-        ts.dyn     = W->prov->GetLogger(fmt("dyn%d", idx), lib, "3.0");
+        {
+          InOp io;
+          ts.dyn = W->prov->GetLogger(fmt("dyn%d", idx), lib, "3.0");
+        }
         ts.dyn_lib = lib;
         break;
       }
@@ -547,6 +552,7 @@ void run_program(int idx, const TaskProg &t)
 void generate(const std::string &, Rng &wl, Rng &fl, Case &c)
 {
   vsim::SimKnobs sk;
+  sk.allow_call_points = true;
   sk.allow_cv_spurious = true;
   sk.faults_on         = fl.chance(0.4);
   sk.typical_len       = 500;
@@ -624,6 +630,14 @@ void generate(const std::string &, Rng &wl, Rng &fl, Case &c)
     c.tasks.push_back(p);
   }
   vsim::draw_run_config(fl, sk, c.rc);
+  // MultiRecordable fans setters out in an order that depends on processor addresses; with
+  // several processors the number of function boundaries crossed before a harness yield is
+  // therefore not a function of the run, so call-boundary preemption stays off in those runs
+  if (c.knob("nproc", 1) > 1)
+  {
+    c.rc.call_period = 0;
+    c.rc.p_call      = 0;
+  }
   c.rc.budget1 = 30000;
 }
 
